@@ -23,6 +23,7 @@ func main() {
 	commands["gen"] = cmdGen
 	commands["gen08"] = cmdGen08
 	commands["realclock"] = cmdRealClock
+	commands["upgrade"] = cmdUpgrade
 	commands["acthelper"] = cmdActHelper
 	if len(os.Args) < 2 {
 		fmt.Fprintln(os.Stderr, "usage: vdriver <command> [flags]")
